@@ -29,6 +29,7 @@ type refLog struct {
 	first   uint64
 	entries []string // log tokens without time
 	stable  map[string]string
+	truncs  int // DeleteRange calls that removed something, so far
 }
 
 func tokKey(tok string) string { // index:term:type:data:ext (time excluded)
@@ -37,7 +38,7 @@ func tokKey(tok string) string { // index:term:type:data:ext (time excluded)
 }
 
 func (r *refLog) clone() *refLog {
-	c := &refLog{first: r.first, entries: append([]string(nil), r.entries...), stable: map[string]string{}}
+	c := &refLog{first: r.first, entries: append([]string(nil), r.entries...), stable: map[string]string{}, truncs: r.truncs}
 	for k, v := range r.stable {
 		c.stable[k] = v
 	}
@@ -92,6 +93,7 @@ func (r *refLog) apply(op string) bool {
 			return true
 		}
 		if mn <= r.firstIndex() {
+			r.truncs++
 			if mx >= r.lastIndex() {
 				r.entries = nil
 				return true
@@ -102,6 +104,7 @@ func (r *refLog) apply(op string) bool {
 			return true
 		}
 		if mx >= r.lastIndex() {
+			r.truncs++
 			r.entries = r.entries[:mn-r.first]
 			return true
 		}
@@ -246,6 +249,9 @@ func (c *crashCtx) checkImage(d *simfs.Disk, admissible []*refLog, replay []stri
 		c.add("C02", "an index inside [FirstIndex, LastIndex] is not readable after recovery", rerr.Error(), replay)
 		if len(admissible[0].entries) > 0 {
 			c.add("C01", "the log holding acknowledged entries is not readable after recovery", rerr.Error(), replay)
+		}
+		if admissible[0].truncs > 0 {
+			c.add("C04", "after acknowledged truncations the retained entries are not all readable once a crash has intervened", rerr.Error(), replay)
 		}
 		c.usabilityProbe(w, d, replay)
 		return nil, nil
